@@ -129,3 +129,187 @@ pub fn adc_fields_ok(p: &det::alpha16::AdcV3Packet, s: &[u8]) -> bool {
             && wave_ok
     }
 }
+
+// ---------------------------------------------------------------- PadWing tables (C03/C05/C08), from the documentation
+pub const SPEC_PADWING: [(&str, [u8; 6], u32); 71] = [
+    ("00", [236, 40, 255, 135, 84, 2], 2281646316), ("01", [236, 40, 250, 162, 84, 2], 2734303468),
+    ("02", [236, 40, 136, 108, 84, 2], 1820862700), ("03", [236, 40, 226, 49, 84, 2], 836905196),
+    ("04", [236, 41, 12, 121, 84, 2], 2030840300), ("05", [236, 40, 211, 69, 84, 2], 1171466476),
+    ("06", [236, 40, 218, 6, 84, 2], 114960620), ("07", [236, 40, 116, 164, 84, 2], 2759076076),
+    ("08", [236, 40, 253, 139, 84, 2], 2348624108), ("10", [236, 40, 248, 75, 84, 2], 1274554604),
+    ("11", [236, 40, 197, 187, 84, 2], 3150260460), ("12", [236, 41, 34, 206, 84, 2], 3458345452),
+    ("13", [236, 40, 159, 252, 84, 2], 4238289132), ("14", [236, 41, 44, 52, 84, 2], 875309548),
+    ("15", [236, 40, 219, 60, 84, 2], 1020995820), ("17", [236, 40, 153, 39, 84, 2], 664348908),
+    ("18", [236, 40, 228, 87, 84, 2], 1474570476), ("19", [236, 40, 116, 173, 84, 2], 2910071020),
+    ("20", [236, 40, 219, 80, 84, 2], 1356540140), ("21", [236, 40, 221, 26, 84, 2], 450701548),
+    ("22", [236, 40, 113, 70, 84, 2], 1181821164), ("23", [236, 41, 39, 253, 84, 2], 4247202284),
+    ("24", [236, 40, 226, 191, 84, 2], 3219269868), ("25", [236, 40, 212, 176, 84, 2], 2966694124),
+    ("26", [236, 40, 188, 31, 84, 2], 532424940), ("27", [236, 40, 252, 239, 84, 2], 4026280172),
+    ("29", [236, 40, 108, 189, 84, 2], 3177982188), ("33", [236, 40, 255, 150, 84, 2], 2533304556),
+    ("34", [236, 40, 226, 52, 84, 2], 887236844), ("35", [236, 40, 137, 30, 84, 2], 512305388),
+    ("36", [236, 40, 165, 153, 84, 2], 2577737964), ("37", [236, 41, 43, 61, 84, 2], 1026238956),
+    ("39", [236, 41, 43, 253, 84, 2], 4247464428), ("40", [236, 40, 198, 81, 84, 2], 1371941100),
+    ("41", [236, 40, 187, 198, 84, 2], 3334154476), ("42", [236, 41, 41, 188, 84, 2], 3156814316),
+    ("44", [236, 40, 218, 198, 84, 2], 3336186092), ("45", [236, 41, 24, 143, 84, 2], 2400725484),
+    ("46", [236, 40, 160, 64, 84, 2], 1084238060), ("49", [236, 40, 156, 87, 84, 2], 1469851884),
+    ("52", [236, 41, 24, 28, 84, 2], 471345644), ("53", [236, 40, 183, 208, 84, 2], 3501664492),
+    ("54", [236, 40, 113, 62, 84, 2], 1047603436), ("55", [236, 40, 255, 172, 84, 2], 2902403308),
+    ("56", [236, 40, 135, 152, 84, 2], 2558994668), ("57", [236, 40, 128, 45, 84, 2], 763373804),
+    ("58", [236, 41, 42, 70, 84, 2], 1177168364), ("60", [236, 40, 243, 36, 84, 2], 619915500),
+    ("63", [236, 40, 108, 234, 84, 2], 3932956908), ("64", [236, 40, 110, 20, 84, 2], 342763756),
+    ("65", [236, 40, 215, 15, 84, 2], 265758956), ("66", [236, 40, 197, 199, 84, 2], 3351587052),
+    ("67", [236, 40, 183, 38, 84, 2], 649537772), ("68", [236, 40, 211, 91, 84, 2], 1540565228),
+    ("69", [236, 40, 224, 249, 84, 2], 4192217324), ("70", [236, 40, 248, 99, 84, 2], 1677207788),
+    ("71", [236, 40, 129, 16, 84, 2], 276900076), ("72", [236, 40, 241, 249, 84, 2], 4193331436),
+    ("73", [236, 40, 113, 64, 84, 2], 1081157868), ("74", [236, 40, 252, 14, 84, 2], 251406572),
+    ("75", [236, 41, 39, 26, 84, 2], 438774252), ("76", [236, 40, 244, 136, 84, 2], 2297702636),
+    ("77", [236, 41, 17, 29, 84, 2], 487664108), ("78", [236, 41, 37, 14, 84, 2], 237316588),
+    ("81", [236, 40, 137, 152, 84, 2], 2559125740), ("84", [236, 40, 135, 104, 84, 2], 1753688300),
+    ("85", [236, 40, 216, 183, 84, 2], 3084396780), ("87", [236, 40, 244, 138, 84, 2], 2331257068),
+    ("89", [57, 232, 246, 41, 216, 2], 704047161), ("90", [57, 232, 209, 204, 216, 2], 3436308537),
+    ("91", [236, 40, 190, 114, 84, 2], 1925064940),
+];
+pub fn pwb_row_of_mac(m: &[u8]) -> Option<usize> {
+    let mut i = 0;
+    while i < 71 { if m == &SPEC_PADWING[i].1[..] { return Some(i); } i += 1; }
+    None
+}
+pub fn pwb_row_of_device(d: u32) -> Option<usize> {
+    let mut i = 0;
+    while i < 71 { if d == SPEC_PADWING[i].2 { return Some(i); } i += 1; }
+    None
+}
+pub fn pwb_row_of_name(n: &[u8]) -> Option<usize> {
+    let mut i = 0;
+    while i < 71 { if n == SPEC_PADWING[i].0.as_bytes() { return Some(i); } i += 1; }
+    None
+}
+pub fn alpha16_row_of_name(n: &[u8]) -> Option<usize> {
+    let mut i = 0;
+    while i < 8 { if n == SPEC_ALPHA16[i].0.as_bytes() { return Some(i); } i += 1; }
+    None
+}
+
+pub fn le16(s: &[u8], o: usize) -> u16 { (s[o] as u16) | ((s[o + 1] as u16) << 8) }
+pub fn lei16(s: &[u8], o: usize) -> i16 { le16(s, o) as i16 }
+
+// ---------------------------------------------------------------- chunk (C03); `crc` is whatever crc32c::crc32c the build links
+pub fn chunk_ok(s: &[u8], crc: fn(&[u8]) -> u32) -> bool {
+    if s.len() < 28 || s.len() % 4 != 0 { return false; }
+    if pwb_row_of_device(le32(s, 0)).is_none() { return false; }
+    if !(s[10] <= 3 && s[11] <= 1) { return false; }
+    let l = le16(s, 14) as usize;
+    if !(s.len() - 27 <= l && l <= s.len() - 24) { return false; }
+    if le32(s, 16) != !crc(&s[0..16]) { return false; }
+    let mut i = 20 + l;
+    while i < s.len() - 4 { if s[i] != 0 { return false; } i += 1; }
+    le32(s, s.len() - 4) == !crc(&s[20..s.len() - 4])
+}
+pub fn chunk_fields_ok(c: &det::padwing::Chunk, s: &[u8], crc: fn(&[u8]) -> u32) -> bool {
+    let l = le16(s, 14) as usize;
+    c.board_id().device_id() == le32(s, 0)
+        && c.packet_sequence() == le32(s, 4)
+        && c.channel_sequence() == le16(s, 8)
+        && det::padwing::AfterId::try_from(s[10]).map(|a| a == c.after_id()).unwrap_or(false)
+        && c.is_end_of_message() == (s[11] & 1 == 1)
+        && c.chunk_id() == le16(s, 12)
+        && c.payload() == &s[20..20 + l]
+        && c.header_crc32c() == !crc(&s[0..16])
+        && c.payload_crc32c() == !crc(&s[20..s.len() - 4])
+}
+
+// ---------------------------------------------------------------- PWB v2 (C05)
+/// readout index (1..=79) -> (kind, number): kind 0 reset, 1 fpn, 2 pad
+pub fn chan_of(i: u16) -> (u8, u16) {
+    if i <= 3 { (0, i) }
+    else if i == 16 { (1, 1) } else if i == 29 { (1, 2) } else if i == 54 { (1, 3) } else if i == 67 { (1, 4) }
+    else { (2, i - 3 - (i > 16) as u16 - (i > 29) as u16 - (i > 54) as u16 - (i > 67) as u16) }
+}
+pub fn chan_key(c: det::padwing::ChannelId) -> (u8, u16) {
+    use det::padwing::*;
+    // the inner numbers are private; recover them by comparing against every valid constructor value
+    match c {
+        ChannelId::Reset(r) => { let mut n = 1; while n <= 3 { if ResetChannelId::try_from(n).map(|x| x == r).unwrap_or(false) { return (0, n); } n += 1; } (0, 0) }
+        ChannelId::Fpn(f) => { let mut n = 1; while n <= 4 { if FpnChannelId::try_from(n).map(|x| x == f).unwrap_or(false) { return (1, n); } n += 1; } (1, 0) }
+        ChannelId::Pad(p) => { let mut n = 1; while n <= 72 { if PadChannelId::try_from(n).map(|x| x == p).unwrap_or(false) { return (2, n); } n += 1; } (2, 0) }
+    }
+}
+pub fn mask80(s: &[u8], o: usize) -> u128 {
+    let mut m: u128 = 0;
+    let mut i = 0;
+    while i < 10 { m |= (s[o + i] as u128) << (8 * i); i += 1; }
+    m
+}
+pub fn pwb_ok(s: &[u8]) -> bool {
+    if s.len() < 56 { return false; }
+    if s[0] != 2 || !(65 <= s[1] && s[1] <= 68) || s[2] != 0 || !(s[3] == 0 || s[3] == 1 || s[3] == 3) { return false; }
+    if pwb_row_of_mac(&s[4..10]).is_none() { return false; }
+    if s[18] != 0 || s[19] != 0 { return false; }
+    if le16(s, 20) > 511 || le16(s, 22) > 511 { return false; }
+    if s[33] & 128 != 0 || s[43] & 128 != 0 { return false; }
+    let samples = le16(s, 22) as usize;
+    let bpc = 4 + 2 * (samples + samples % 2);
+    let mask = mask80(s, 24);
+    let k = mask.count_ones() as usize;
+    if s.len() != 52 + k * bpc + 4 { return false; }
+    let mut j = 0;
+    let mut bitpos = 0u16;
+    while bitpos < 79 {
+        if (mask >> bitpos) & 1 == 1 {
+            let off = 52 + j * bpc;
+            if le16(s, off) != bitpos + 1 || le16(s, off + 2) as usize != samples { return false; }
+            if samples % 2 != 0 && (s[off + 4 + 2 * samples] != 0 || s[off + 4 + 2 * samples + 1] != 0) { return false; }
+            j += 1;
+        }
+        bitpos += 1;
+    }
+    s[s.len() - 4..] == [204, 204, 204, 204]
+}
+pub fn pwb_fields_ok(p: &det::padwing::PwbV2Packet, s: &[u8]) -> bool {
+    use det::padwing::*;
+    let after = match s[1] { 65 => AfterId::A, 66 => AfterId::B, 67 => AfterId::C, _ => AfterId::D };
+    let samples = le16(s, 22) as usize;
+    let spc = 2 + samples + samples % 2;
+    let mut ok = p.packet_version() == 2
+        && p.after_id() == after
+        && matches!(p.compression(), Compression::Raw)
+        && match p.trigger_source() { Trigger::External => s[3] == 0, Trigger::Manual => s[3] == 1, Trigger::InternalPulse => s[3] == 3 }
+        && p.board_id().mac_address()[..] == s[4..10]
+        && p.trigger_delay() == le16(s, 10)
+        && p.trigger_timestamp() == le64(s, 12)
+        && p.last_sca_cell() == le16(s, 20)
+        && p.requested_samples() == samples
+        && p.event_counter() == Some(le32(s, 44)).unwrap()
+        && p.fifo_max_depth() == le16(s, 48)
+        && p.event_descriptor_write_depth() == s[50]
+        && p.event_descriptor_read_depth() == s[51];
+    // channel lists = set bits ascending through the readout map; waveform of the j-th sent channel = its block
+    let sent = mask80(s, 24);
+    let thr = mask80(s, 34);
+    let (mut js, mut jt) = (0usize, 0usize);
+    let mut b = 0u16;
+    while b < 79 {
+        if (sent >> b) & 1 == 1 {
+            ok = ok && js < p.channels_sent().len() && chan_key(p.channels_sent()[js]) == chan_of(b + 1);
+            if ok {
+                match p.waveform_at(p.channels_sent()[js]) {
+                    Some(w) => {
+                        ok = ok && w.len() == samples;
+                        let mut i = 0;
+                        while ok && i < samples { ok = w[i] == lei16(s, 52 + 2 * (spc * js + 2 + i)); i += 1; }
+                    }
+                    None => ok = false,
+                }
+            }
+            js += 1;
+        } else if ok {
+            if let Ok(c) = ChannelId::try_from(b + 1) { ok = p.waveform_at(c).is_none(); }
+        }
+        if (thr >> b) & 1 == 1 {
+            ok = ok && jt < p.channels_over_threshold().len() && chan_key(p.channels_over_threshold()[jt]) == chan_of(b + 1);
+            jt += 1;
+        }
+        b += 1;
+    }
+    ok && js == p.channels_sent().len() && jt == p.channels_over_threshold().len()
+}
